@@ -24,7 +24,7 @@ class AV:
     __slots__ = ('k', 'c', 'p', 'dims', 'dt', 'items', 'elem', 'org', 'oid',
                  'label', 'pv', 'orth', 'lg', 'deg', 'unit', 'taint', 'lay',
                  'fn', 'env', 'self_', 'attrs', 'ext', 'keys', 'cls', 'src',
-                 'note', 'uninit', 'maybe_none', 'nonneg', 'normed', 'idx', 'lo')
+                 'note', 'uninit', 'maybe_none', 'nonneg', 'normed', 'idx', 'lo', 'nonlin')
 
     def __init__(self, k, **kw):
         self.k = k
@@ -59,6 +59,7 @@ class AV:
         self.normed = False
         self.idx = None
         self.lo = None
+        self.nonlin = False
         for a, v in kw.items():
             setattr(self, a, v)
         if k in ('list', 'dict', 'obj') and self.oid is None:
